@@ -27,7 +27,7 @@ Proof. split; vm_compute; reflexivity. Qed.
 Example f1_repaired_agrees : kn_impl f1_corpus 2 opts0 = kn_spec f1_corpus 2 opts0.
 Proof. vm_compute. reflexivity. Qed.
 
-(* F12: with unigram threshold 1 and a single sentence, </s> (true count 1) is marked by the unrepaired loop although
+(* F12L: with unigram threshold 1 and a single sentence, </s> (true count 1) is marked by the unrepaired loop although
    specials are never removed from the output: counts_pruned[0] = 4 but five unigrams are written. *)
 Definition opts_p1 : options := mkOpts [1;1]%N None true (Some (1#2, 1, 3#2)).
 Definition f12_corpus : corpus := [[3;4;5;3;4]]%N.
@@ -36,3 +36,12 @@ Lemma f12_eos_marked :
   map s_count_pruned (snd r) = [4; 1]%N /\
   map e_gram (filter (fun e => negb (e_marked e) || special1 (e_gram e)) (nth 0 (fst r) [])) = [[0];[1];[2];[3];[4]]%N.
 Proof. vm_compute. split; reflexivity. Qed.
+
+(* the hypotheses of the refinement theorems are satisfiable (and hold for every threshold vector lmplz can be given
+   short of 2^64-1) *)
+Example thr_hypothesis_satisfiable : forall k, (thr opts0 k < MAX64)%N /\ (thr opts_p1 k < MAX64)%N.
+Proof.
+  intros k. unfold thr, opts0, opts_p1, o_prune. split.
+  - destruct (k - 1)%nat; reflexivity.
+  - destruct (k - 1)%nat as [|[|j]]; try reflexivity. destruct j; reflexivity.
+Qed.
